@@ -223,7 +223,7 @@ def worker(sh):
 
 
 def run(ctx):
-    cfgs = ['prod', 'san', 'p32'] if ctx.quick else ['prod', 'san', 'p64', 'p32', 'p32-san']
+    cfgs = ['prod', 'san', 'p32'] if ctx.quick else ['prod', 'san', 'p64', 'p32', 'p32-san', 'p64-O0', 'gcc-p64']
     exes = session.build_exes({c: (c, 'wkd_drv.cpp', []) for c in cfgs})
     session.run_shards(ctx, worker, 16, exes, {'cfgs': cfgs})
     ctx.rule = ('events: decrypt(key with pattern P, fresh ciphertext for list L [optionally one component modified]) == message?  The generator guarantees a real difference: '
